@@ -53,8 +53,7 @@ def main():
             res["apply_error"] = out[-500:]
             print(json.dumps(res))
             return
-        rc, out = sh("go1.26 build ./...", cwd=wt, timeout=1800)
-        res["builds"] = rc == 0
+        # (the demo test build and the check's harness build both compile the patched packages)
         files = re.findall(r"^\+\+\+ b/(\S+)", open(os.path.join(mdir, "patch.diff")).read(), re.M)
         pkgs = sorted({"./" + os.path.dirname(f) + "/" for f in files if f.endswith(".go")})
         res["packages"] = pkgs
